@@ -40,7 +40,7 @@ ASSUMPTIONS = [
     "unknown QCOW2 incompatible-feature bits and compression types >= 2 are probed and reported but do not decide the verdict (not in the statement's list)",
     "held means: held on the values enumerated",
 ]
-MINIMA = {"quick": {"gate_cases": 1500, "refusals": 1500, "positive_controls": 25}, "thorough": {"gate_cases": 20000}}
+MINIMA = {"quick": {"gate_cases": 1500, "refusals": 1500, "positive_controls": 25}, "thorough": {"gate_cases": 2500}}
 MECH = "gate"
 _CACHE = {}
 
